@@ -493,7 +493,7 @@ class C05(Prop):
     # ---- generation ------------------------------------------------------------------------------
     def generate(self, rng, tier):
         self._tier = tier
-        cases = gen_cases(rng, 6, 8) if tier == "quick" else gen_cases(rng, 90, 12)
+        cases = gen_cases(rng, 4, 7) if tier == "quick" else gen_cases(rng, 90, 12)
         budget = 240 if tier == "quick" else 1500
         from ..core import corpus_cases
         self.prefetch(corpus_cases(self.pid) + cases, budget)
@@ -557,13 +557,17 @@ class C05(Prop):
 
     def cfg_letters(self):
         """the configuration the translator read from the source (so that model and implementation are compared like with like)"""
+        from ..translate import gen_c05_c16
         try:
-            from ..translate import gen_c05_c16
-            cfg = gen_c05_c16.read_config()
-            return ("d" if cfg["clone"] == "deep" else "s") + ("c" if cfg["parser"] == "perClass" else "s") + \
-                   ("p" if cfg["ns"] == "perCall" else "s") + ("t" if cfg.get("skipTE", True) else "r")
+            cfg = gen_c05_c16.read_config(("clone", "parser", "skipTE"))
         except Exception:
-            return "dcp"
+            cfg = {"clone": "deep", "parser": "perClass", "skipTE": True}
+        try:
+            ns = gen_c05_c16.read_config(("ns",))["ns"]
+        except Exception:
+            ns = "perCall"
+        return ("d" if cfg["clone"] == "deep" else "s") + ("c" if cfg["parser"] == "perClass" else "s") + \
+               ("p" if ns == "perCall" else "s") + ("t" if cfg.get("skipTE", True) else "r")
 
     def model_expect(self, c, m):
         return m
